@@ -2,6 +2,9 @@
 from valve_common import *
 from quake_common import quake_specs, quake_case
 from u2_common import u2_specs, u2_case
+from gs_common import gs_specs, gs_case
+import json as _json
+from vlib import BUILD
 
 ID = "C09"
 PROPS_FILE = "C09"
@@ -10,7 +13,7 @@ TRUSTED = [
     "Coq 8.16.1 kernel; theorems closed under the global context (Section hypothesis: the bzip2 oracle returns a value or an error)",
     "extraction (ExtrOcamlBasic), extract/driver.ml, Rust harness + scripted transport hook (records every send with its destination)",
     "the request language is re-stated independently in tools/props/valve_common.py request_oracle for the check on the implementation",
-    "protocols modelled so far: Valve; the others are named in coverage.uncovered_protocols",
+    "request theorems: Valve, Quake, Unreal 2 (and C04 for the GameSpy 3 challenge); GameSpy, the Minecraft handshake and the default ports of the definitions table are covered by the request oracle on the implementation and by model = implementation",
 ]
 RULE = ("every case compares the full send log of model and implementation; valid Spec-generated exchanges with 0-3 challenge rounds per request and stratified challenge bytes "
         "{00,0a,41,5c,ff,fe,01,80}^4 plus random, all engines, ports 27015-27019, plus mutated scripts; the request oracle walks the observed trace against the script; "
@@ -49,13 +52,114 @@ def gen_cases(tier, rng):
         port = r.choice([7778, 7787, 1, 65535])
         cases.append({"id": "ureq/%d" % u["seed"], "hex": u2_case(port, r.choice([None, (1, 2), (2, 2), (0, 2), (1, 0)]), {"retries": r.below(3)}, u["events"]),
                       "meta": {"stream": "unreal2-requests", "unreal2": True, "port": port, "events": [], "tags": {}}})
+    # GameSpy: fixed requests, and the GameSpy 3 data request must carry the server's challenge (any i32)
+    for ver in (1, 2, 3):
+        for g in gs_specs(ver, [rng.next() >> 1 for _ in range(100 if tier == "quick" else 3000)]):
+            if not g["fits"]:
+                continue
+            port = r.choice([7777, 1, 65535, 23000])
+            if ver == 3:
+                c = r.choice([0, 1, -1, 2147483647, -2147483648, 16909060, -16909060, r.below(1 << 32) - (1 << 31)])
+                evs = [b"\x09\x00\x00\x00\x01" + str(c).encode() + b"\x00"] + g["events"][1:]
+                ch = b"" if c == 0 else (c & 0xffffffff).to_bytes(4, "big")
+                req = ["fefd0900000001", "fefd0000000001" + ch.hex() + "ffffff01"]
+            else:
+                evs = g["events"]
+                req = ["5c7374617475735c787365727665727175657279"] if ver == 1 else ["fefd0000000001ffffff"]
+            cases.append({"id": "gs%dreq/%d" % (ver, g["seed"]), "hex": gs_case(ver, port, 0, None, evs),
+                          "meta": {"stream": "gamespy%d-requests" % ver, "fixed": req, "port": port, "events": [], "tags": {}}})
+    # the generic entry point: default ports of every UDP game, and extra request settings
+    # (host name, protocol version) in the Minecraft Java handshake
+    games = _json.load(open(BUILD + "/gen/games.json"))
+    for g in games:
+        pr = g["protocol"]
+        if isinstance(pr, dict) and ("Valve" in pr or "Gamespy" in pr or "Quake" in pr) or pr == "Unreal2":
+            for port in (None, 1024 + r.below(60000)):
+                cases.append({"id": "port/%s/%s" % (g["id"], port), "hex": generic_case(g["id"], port, None, [], []),
+                              "meta": {"stream": "default-port", "dest": port if port is not None else g["default_port"], "events": [], "tags": {}}})
+    import C03
+    mcseeds = [rng.next() >> 1 for _ in range(60 if tier == "quick" else 1500)]
+    outs = run_model([(bytes([133]) + x.to_bytes(8, "big") + bytes([1])).hex() for x in mcseeds])
+    hosts = [None, "", "gamedig", "mc.example.org", "h\u00e9te", "a" * 127, "b" * 128, "c" * 300]
+    protos = [None, -1, 0, 47, 763, 2147483647, -2147483648, 128, 16384]
+    for x, o in zip(mcseeds, outs):
+        if o == "SKIP":
+            continue
+        udp, tcp, expected, js, tags = C03.parse_spec(o)
+        for k in range(3):
+            host, proto = r.choice(hosts), r.choice(protos)
+            port = r.choice([None, 25565, 1, 65535, 25577])
+            gid = r.choice(["minecraftjava", "minecraft"])
+            extra = None if (host is None and proto is None and r.chance(1, 2)) else {"hostname": host, "protocol": proto}
+            h = "gamedig" if (extra is None or host is None) else host
+            pv = -1 if (extra is None or proto is None) else proto
+            dest = 25565 if port is None else port
+            hb = h.encode()
+            hs = b"\x00" + C03_varint(pv) + C03_varint(len(hb)) + hb + dest.to_bytes(2, "little") + b"\x01"
+            req = [(C03_varint(len(hs)) + hs).hex(), "0100", "0101"]
+            cases.append({"id": "mcreq/%d/%d" % (x, k), "hex": generic_case(gid, port, extra, [], tcp, [js] if js else []),
+                          "meta": {"stream": "minecraft-handshake", "fixed": req, "port": dest, "first_conn_only": True, "events": [], "tags": {}}})
     return cases
+
+
+def C03_varint(n):
+    out = b""
+    n &= 0xffffffff
+    while True:
+        b = n & 0x7f
+        n >>= 7
+        if n:
+            out += bytes([b | 0x80])
+        else:
+            return out + bytes([b])
+
+
+def generic_case(gid, port, extra, udp, tcp, jsons=()):
+    import C03
+    g = gid.encode()
+    out = bytes([34]) + len(g).to_bytes(2, "big") + g + (b"\x00" if port is None else b"\x01" + port.to_bytes(2, "big"))
+    if extra is None:
+        out += b"\x00"
+    else:
+        out += b"\x01" + b"\x00\x00\x00"
+        h = extra.get("hostname")
+        out += b"\x00" if h is None else b"\x01" + len(h.encode()).to_bytes(2, "big") + h.encode()
+        p = extra.get("protocol")
+        out += b"\x00" if p is None else b"\x01" + (p & 0xffffffff).to_bytes(4, "big")
+    out += enc_ts(None) + C03.enc_script(udp, tcp)
+    tbl = bytes([len(jsons)])
+    for t in jsons:
+        pj = C03.strict_json(t)
+        from view_common import enc_tree
+        tbl += len(t).to_bytes(4, "big") + t + (b"\x00" if pj is None else b"\x01" + enc_tree(pj[1]))
+    return (out + tbl).hex()
 
 
 QUAKE_REQ = {1: "ffffffff73746174757300", 2: "ffffffff73746174757300", 3: "ffffffff67657473746174757300"}
 
 
 def oracle(case, impl, side):
+    if "dest" in case["meta"]:
+        res, trace = split_result(impl)
+        ports = set(int(t[1:].split(":")[0].split("c")[0]) for t in (trace or "").split(";") if t[:1] in ("U", "T", "S"))
+        if ports != {case["meta"]["dest"]}:
+            return ("wrong-port", "%s: traffic to ports %s, expected %d" % (case["id"], sorted(ports), case["meta"]["dest"]))
+        return None
+    if "fixed" in case["meta"]:
+        res, trace = split_result(impl)
+        sends = []
+        for t in (trace or "").split(";"):
+            if t.startswith("S"):
+                p, _, d = t[1:].partition(":")
+                if int(p) != case["meta"]["port"]:
+                    return ("wrong-port", "%s sent to port %s, expected %d" % (case["id"], p, case["meta"]["port"]))
+                sends.append(d)
+        exp = case["meta"]["fixed"]
+        if case["meta"].get("first_conn_only"):
+            sends = sends[:len(exp)]
+        if sends != exp:
+            return ("request:" + case["meta"]["stream"], "%s: requests %s, the protocol defines %s" % (case["id"], [x[:80] for x in sends], [x[:80] for x in exp]))
+        return None
     if "unreal2" in case["meta"]:
         res, trace = split_result(impl)
         for t in (trace or "").split(";"):
@@ -89,4 +193,6 @@ def nontrivial(case, model):
 
 
 def extra_runs(tier, rng, ctx):
-    return [], {"uncovered_protocols": ["gamespy 1/2/3", "minecraft", "mindustry", "savage2", "ffow", "definitions table ports"]}
+    return [], {"uncovered_protocols": ["eco / minetest (HTTP)"],
+                "covered_by_correspondence_only": ["gamespy 1/2/3 requests and the GameSpy 3 challenge", "minecraft java handshake with host name / protocol version settings",
+                                                   "default ports of the definitions table through the generic entry point (all UDP games)"]}
